@@ -5,7 +5,7 @@ from ..core.interp import Interp
 from ..frontend.pyfront import Repo
 
 LEVEL = 'proof'
-TECHNIQUE = 'abstract interpretation of the helper bodies into rational functions + polynomial identity testing against the closed form; callers interpreted with the callee inlined (semantic call-site binding)'
+TECHNIQUE = 'abstract interpretation of the helper bodies into rational functions + polynomial identity testing against the closed form; callers interpreted with the callee inlined (semantic call-site binding); the public entry point interpreted end to end with scalar and with array inputs (arrays as mutable cells: aliasing and in-place updates are followed) up to l = 5'
 LEVEL_TEXT = ('Every obligation is an algebraic identity between the value the source computes (extracted by abstract interpretation, '
               'nothing executed) and the Kelvin closed form, for l = 2..7 and symbolic mu, g, R, rho, J; decided exactly in a finite field. '
               'The agreement with the layered solver is decided at formula level (R12.6): the exact homogeneous solution of the solver\'s static incompressible equations, with its surface condition and Love extraction, equals complex_love_general for l = 2..4 (thorough: up to 10).')
